@@ -50,6 +50,7 @@ class World:
         self.probes = Counter()
         self.handles: list[tuple[str, SimHandle]] = []
         self.pending_eio: dict[str, int] = {}  # path -> k (arm EIO on k-th read of the next handle on path)
+        self.fields: list[tuple[str, Field]] = []  # (absolute path, field) of every image placed in this world
         MONITOR.install()
         MONITOR.reset()
 
@@ -64,7 +65,13 @@ class World:
         base = self.root + ("/" + directory.strip("/") if directory else "")
         for name, f in image.files.items():
             self.fs.add(base + "/" + name, f)
+            self.note_fields(image, name, base + "/" + name)
         return base + "/" + image.main
+
+    def note_fields(self, image: Image, name: str, path: str):
+        for fld in image.fields:
+            if fld.file == name:
+                self.fields.append((path, fld))
 
     def handle(self, path: str, named: bool = True) -> SimHandle:
         f = self.fs.files[path]
